@@ -403,6 +403,18 @@ _amend("C13", "rule", "release order drawn;", "release order drawn; with a recei
 _amend("C15", "rule", "connection close for HTTP/1.1,", "connection close for HTTP/1.1 (half of those with a trailing slash on the path, which the mux normalises before routing),")
 _amend("C16", "rule", "All generated methods share the short name Mth", "The response type (rt.Rsp) differs from the request type (rt.Req), each with a message field the other lacks. All generated methods share the short name Mth")
 
+# round 8
+_amend("C03", "rule", "Non-trivial", "A quarter of the cases use a client-streaming binding whose FIRST message must be the reconstruction (JSON concatenated, protobuf length-delimited). Non-trivial")
+_amend("C04", "rule", "Non-trivial", "Body-less GET routes whose reply is raw or response_body-selected also receive odd request content types (image/jpeg, ...). Non-trivial")
+_amend("C05", "rule", "Non-trivial", "A failing raw-upload (google.api.HttpBody) route with its own request Content-Type and Accept is part of the route set. Non-trivial")
+_amend("C06", "rule", "Non-trivial", "For a truncated gzip upload the harness inflates the cut body itself and requires every message that is complete in the deliverable bytes. Non-trivial")
+_amend("C09", "rule", "Non-trivial", "Stream bodies also come as length-delimited protobuf with message sizes around the pooled buffer capacities (64/128/1024); on the gRPC entries the declared grpc-encoding (none/gzip/identity/unknown) is drawn apart from the frames' compressed flags. Non-trivial")
+_amend("C10", "rule", "Non-trivial", "One message in five is empty. Non-trivial")
+_amend("C12", "rule", "non-trivial = at least one request", "writer operations include registrations that fail late (multi-bad-s, conn-bad: a backend without reflection); an operation that does not return within 15 s is the violation 'operation-blocked'; non-trivial = at least one request")
+_amend("C13", "rule", "non-trivial = >=2 calls", "gRPC-web trailer frames are parsed and must carry this call's own status; non-trivial = >=2 calls")
+_amend("C15", "rule", "Non-trivial", "A third of the muxes carry options (a no-op stats handler, pass-through interceptors), which must not detach the handler's context. Non-trivial")
+_amend("C18", "rule", "Non-trivial", "Streaming shapes on local services draw a send limit that refuses the third or fourth reply (no OutPayload for a refused reply, End carries the error). Non-trivial")
+
 # native coverage-guided fuzzing of the same generators (thorough tier only)
 for _k, _t in (("C01", "FuzzRoute"), ("C03", "FuzzTranscode"), ("C16", "FuzzRegister"), ("C17", "FuzzCodec")):
     PROPS[_k]["fuzz"] = {"target": _t, "seconds": 120}
